@@ -141,7 +141,11 @@ def mask_grid_data_array(mask: xarray.Dataset, data_array: xarray.DataArray) -> 
             logger.debug(
                 "Masking data array %r with mask %r",
                 data_array.name, mask_name)
-            new_data_array = cast(xarray.DataArray, data_array.where(mask_data_array, other=fill_value))
+            # The mask carries copies of the coordinate variables.
+            # Do not attach them to the masked data array, as the data array
+            # may itself be one of those variables when they are not xarray coordinates.
+            mask_values = mask_data_array.reset_coords(drop=True)
+            new_data_array = cast(xarray.DataArray, data_array.where(mask_values, other=fill_value))
             new_data_array.attrs = data_array.attrs
             new_data_array.encoding = data_array.encoding
             return new_data_array
